@@ -10,6 +10,10 @@ P1_stream_pin_mut `let stream = utils::get_pin_mut[_from_vec](self.streams.as_mu
                   `stream.poll_next(&mut cx)`  ->  `self.streams.get_pin_mut_unwrap(I);` (bounds obligation of
                   the unwrap) + `self.streams.poll_next_child(I, &mut cx, &mut self.wakers)`.  The selection
                   expression I is carried over verbatim, so wrong-child mutations survive extraction.
+TM_* / TR_*       tuple impls of merge / race from the compiler's macro expansion (see the section comment below):
+                  TM_indexes_as_usize, TM_mod_len_u8, TM_stream_child_poll, TM_streams_project, TM_ctor_streams,
+                  TM_utils_indexer, TM_fold_dispatch (positional dispatch folding; conditions in its docstring),
+                  TR_local_indexes, TR_field_poll, TR_ctor_fields.
 """
 import re as _re
 from . import rustlex as _lex
@@ -39,7 +43,241 @@ def p1_stream_pin_mut(body):
     return body, 1 + k
 
 
+# ---------------------------------------------------------------------------------------------------
+# Tuple impls (compiler-expanded src/stream/merge/tuple.rs, src/future/race/tuple.rs).
+# Field letter X <-> tuple position pos(X) (LETTERS, as in vx/rules_tuple.py).  Every rule that fixes a
+# positional order checks it against the DECLARATION it comes from (enum Indexes / LEN table of the
+# expansion, destructuring patterns) and does not match otherwise (lost anchor => exit 2).
+# ---------------------------------------------------------------------------------------------------
+LETTERS = 'ABCDEFGHIJKL'
+
+
+def _pos(letter):
+    return LETTERS.index(letter)
+
+
+def _ordered(letters):
+    return list(letters) == list(LETTERS[:len(letters)])
+
+
+def _mod_tables(modname):
+    """(enum variant list, LEN table list) of `mod MODNAME { .. enum Indexes { A, B, } const LEN: usize = [Indexes::A, ..].len(); }`
+    read from the compiler's expansion; None if not found."""
+    from . import gen as _gen       # lazy: gen imports the rule modules
+    src = _gen.expanded_source()
+    try:
+        a, ob, e = _lex.find_item(src, r'\bmod\s+%s\b' % _re.escape(modname))
+    except Exception:
+        return None
+    text = src[a:e]
+    m = _re.search(r'#\[repr\(usize\)\]\s*pub\(super\)\s+enum\s+Indexes\s*\{([^}]*)\}', text)
+    l = _re.search(r'pub\(super\)\s+const\s+LEN\s*:\s*usize\s*=\s*\[([^\]]*)\]\s*\.len\(\);', text)
+    if not m or not l:
+        return None
+    variants = [x.strip() for x in m.group(1).split(',') if x.strip()]
+    if any('=' in v for v in variants):          # explicit discriminants: positions are no longer declaration order
+        return None
+    table = _re.findall(r'Indexes::(\w+)', l.group(1))
+    if len(table) != len([x for x in l.group(1).split(',') if x.strip()]):
+        return None
+    return variants, table
+
+
+def tm_indexes_as_usize(body):
+    """`MOD::Indexes::X as usize` -> the discriminant of X = its position in the #[repr(usize)] enum declaration of
+    mod MOD in the expansion (no explicit discriminants, else no match)."""
+    n = 0
+    bad = False
+
+    def rep(m):
+        nonlocal n, bad
+        t = _mod_tables(m.group(1))
+        if not t or m.group(2) not in t[0]:
+            bad = True
+            return m.group(0)
+        n += 1
+        return '%d' % t[0].index(m.group(2))
+    out = _re.sub(r'\b(\w+)::Indexes::(\w+)\s+as\s+usize\b', rep, body)
+    if bad:
+        return body, 0
+    return out, n
+
+
+def tm_mod_len_u8(body):
+    """`const LEN: u8 = MOD::LEN as u8;` -> `let LEN: u8 = K as u8;` with K = number of entries of the LEN table of mod MOD
+    (`[Indexes::A, ..].len()`), each entry a distinct variant of the enum; K <= 255 is checked so that the cast is the identity."""
+    m = _re.search(r'const\s+LEN\s*:\s*u8\s*=\s*(\w+)::LEN\s+as\s+u8\s*;', body)
+    if not m:
+        return body, 0
+    t = _mod_tables(m.group(1))
+    if not t or len(set(t[1])) != len(t[1]) or any(x not in t[0] for x in t[1]) or len(t[1]) > 255:
+        return body, 0
+    # K <= 255: the cast `K as u8` is the identity
+    return body[:m.start()] + 'let LEN: u8 = %du8;' % len(t[1]) + body[m.end():], 1
+
+
+def tm_stream_child_poll(body):
+    # unsafe { Pin::new_unchecked(&mut streams.X) }.poll_next(&mut cx)  -> poll_next_child(pos(X), ..)
+    n = 0
+
+    def rep(m):
+        nonlocal n
+        n += 1
+        return 'self.streams.poll_next_child(%d, &mut cx, &mut self.wakers)' % _pos(m.group(1))
+    return _re.sub(r'unsafe\s*\{\s*Pin::new_unchecked\(&mut streams\.([A-L])\)\s*\}\s*\.poll_next\(&mut cx\)', rep, body), n
+
+
+def tm_fold_dispatch(body):
+    """Positional dispatch folding (P3-style port, tuple merge).  The macro unrolls, for every field X,
+        let stream_index = MOD::Indexes::X as usize;
+        if stream_index == index { match unsafe { Pin::new_unchecked(&mut streams.X) }.poll_next(&mut cx) { ARMS } };
+    For 0 <= index < K exactly one guard holds, so the chain equals the block of the field whose discriminant is `index`,
+    run with stream_index == index.  It is replaced by ONE block
+        let stream_index = index;
+        if stream_index == index { match self.streams.poll_next_child(stream_index, &mut cx, &mut self.wakers) { ARMS } };
+    ONLY IF all of the following are checked on the expansion (otherwise no match => lost anchor, exit 2):
+      * the blocks are consecutive and textually identical up to the field letter in `streams.X` (whitespace-normalised);
+      * the block guarded by Indexes::X polls `streams.X`, and the discriminant of X (its position in the #[repr(usize)] enum
+        declaration of mod MOD, no explicit discriminants) equals pos(X), the tuple position of field X;
+      * the discriminants are exactly 0..K-1, each once, K = number of entries of the LEN table of mod MOD;
+      * no block assigns `index` or `stream_index`.
+    For index >= K the original polls nothing while the folded text requires index < K (K_POLL_INDEX): stricter, never weaker.
+    Why folding: with the unrolled chain Z3 needs > 250 s at arity 2 for the full clause set (every extra block multiplies the
+    paths into ~25 quantified post-conditions at 2 more return points); folded it is the array proof (about 7 s at any arity).
+    Returns the number of blocks folded."""
+    hdr = _re.compile(r'let\s+stream_index\s*=\s*(\w+)::Indexes::([A-L])\s+as\s+usize\s*;\s*if\s+stream_index\s*==\s*index\s*\{')
+    masked = _lex.mask(body)
+    blocks = []
+    pos0 = None
+    cur = 0
+    while True:
+        m = hdr.search(body, cur)
+        if not m:
+            break
+        if blocks and body[cur:m.start()].strip() not in ('', ';'):
+            return body, 0                      # something between two blocks
+        if not blocks:
+            pos0 = m.start()
+        ob = m.end() - 1
+        cb = _lex.match_close(masked, ob)
+        blocks.append((m.group(1), m.group(2), body[ob + 1:cb]))
+        cur = cb + 1
+    if not blocks:
+        return body, 0
+    end = cur
+    m2 = _re.match(r'\s*;', body[end:])
+    if m2:
+        end += m2.end()
+    if hdr.search(body, end):
+        return body, 0
+    mods = set(b[0] for b in blocks)
+    if len(mods) != 1:
+        return body, 0
+    t = _mod_tables(blocks[0][0])
+    if not t:
+        return body, 0
+    variants, table = t
+    k = len(table)
+    if len(set(table)) != k or sorted(table) != sorted(variants) or len(blocks) != k:
+        return body, 0
+    norm = None
+    seen = []
+    for (_, x, inner) in blocks:
+        if x not in variants or variants.index(x) != _pos(x):
+            return body, 0                      # discriminant of X differs from the tuple position of field X
+        polls = _re.findall(r'\bstreams\.([A-L])\b', inner)
+        if polls != [x]:
+            return body, 0                      # block X must poll exactly streams.X, once
+        if _re.search(r'\b(?:index|stream_index)\s*(?:[-+*/|&^]?=)(?!=)', inner):
+            return body, 0
+        n_ = _re.sub(r'\s+', ' ', _re.sub(r'\bstreams\.%s\b' % x, 'streams.@', inner)).strip()
+        if norm is None:
+            norm = n_
+        elif n_ != norm:
+            return body, 0                      # blocks differ by more than the field letter
+        seen.append(_pos(x))
+    if sorted(seen) != list(range(k)):
+        return body, 0
+    x0, inner0 = blocks[0][1], blocks[0][2]
+    inner0, c = _re.subn(r'unsafe\s*\{\s*Pin::new_unchecked\(&mut streams\.%s\)\s*\}\s*\.poll_next\(&mut cx\)' % x0,
+                         'self.streams.poll_next_child(stream_index, &mut cx, &mut self.wakers)', inner0)
+    if c != 1:
+        return body, 0
+    new = 'let stream_index = index;\n                        if stream_index == index {' + inner0 + '};'
+    return body[:pos0] + new + body[end:], k
+
+
+def tm_ctor_streams(body):
+    # MOD::Streams { A: A.into_stream(), B: B.into_stream(), }  -> Kids::wrap(streams)   (field X from variable X, positional order)
+    m = _re.search(r'\w+::Streams\s*\{((?:\s*[A-L]\s*:\s*[A-L]\.into_stream\(\)\s*,?)+)\s*\}', body)
+    if not m:
+        return body, 0
+    prs = _re.findall(r'([A-L])\s*:\s*([A-L])\.into_stream\(\)', m.group(1))
+    if not _ordered([p[0] for p in prs]) or any(p[0] != p[1] for p in prs):
+        return body, 0
+    return body[:m.start()] + 'Kids::wrap(streams)' + body[m.end():], 1
+
+
+def tr_local_indexes(body):
+    """race: `#[repr(usize)] enum Indexes { A, B, }` declared INSIDE poll; `Indexes::X as usize` -> position of X in that
+    declaration; the declaration (an item, no executable meaning) is removed."""
+    m = _re.search(r'#\[repr\(usize\)\]\s*enum\s+Indexes\s*\{([^}]*)\}', body)
+    if not m:
+        return body, 0
+    variants = [x.strip() for x in m.group(1).split(',') if x.strip()]
+    if any('=' in v for v in variants):
+        return body, 0
+    body = body[:m.start()] + body[m.end():]
+    bad = False
+    n = 1
+
+    def rep(mm):
+        nonlocal n, bad
+        if mm.group(1) not in variants:
+            bad = True
+            return mm.group(0)
+        n += 1
+        return '%d' % variants.index(mm.group(1))
+    out = _re.sub(r'\bIndexes::(\w+)\s+as\s+usize\b', rep, body)
+    if bad:
+        return body, 0
+    return out, n
+
+
+def tr_field_poll(body):
+    # unsafe { Pin::new_unchecked(&mut self.X) }.poll(cx)  -> self.futures.poll_cx(pos(X), cx)
+    n = 0
+
+    def rep(m):
+        nonlocal n
+        n += 1
+        return 'self.futures.poll_cx(%d, cx)' % _pos(m.group(1))
+    return _re.sub(r'unsafe\s*\{\s*Pin::new_unchecked\(&mut self\.([A-L])\)\s*\}\s*\.poll\(cx\)', rep, body), n
+
+
+def tr_ctor_fields(body):
+    # `A: A.into_future(), B: B.into_future(),` inside the struct literal -> `futures: Kids::wrap(futures),`
+    m = _re.search(r'((?:\s*[A-L]\s*:\s*[A-L]\.into_future\(\)\s*,?)+)(\s*\})', body)
+    if not m:
+        return body, 0
+    prs = _re.findall(r'([A-L])\s*:\s*([A-L])\.into_future\(\)', m.group(1))
+    if not _ordered([p[0] for p in prs]) or any(p[0] != p[1] for p in prs):
+        return body, 0
+    return body[:m.start()] + ' futures: Kids::wrap(futures),' + m.group(2) + body[m.end():], 1
+
+
 RULES = {
     'N7_indexer_loop': [n7_indexer_loop],
     'P1_stream_pin_mut': [p1_stream_pin_mut],
+    # tuple merge / race (expanded source)
+    'TM_indexes_as_usize': [tm_indexes_as_usize],
+    'TM_mod_len_u8': [tm_mod_len_u8],
+    'TM_stream_child_poll': [tm_stream_child_poll],
+    'TM_streams_project': [(r'let\s+mut\s+streams\s*=\s*self\.streams\.project\(\);', '')],
+    'TM_ctor_streams': [tm_ctor_streams],
+    'TM_fold_dispatch': [tm_fold_dispatch],
+    'TM_utils_indexer': [(r'\butils::Indexer::new\(', 'Indexer::new(')],
+    'TR_local_indexes': [tr_local_indexes],
+    'TR_field_poll': [tr_field_poll],
+    'TR_ctor_fields': [tr_ctor_fields],
 }
